@@ -1398,4 +1398,19 @@ theorem compoundBind_sound' (ar : String → Nat) (fields args : List Ty) (b : B
     exact k3
 
 
+/-! ## calls through function-typed values -/
+theorem callableArgs_iff (ar : String → Nat) : (ps args : List Ty) → declarableList ps = true → wfList ar ps = true →
+    wfList ar args = true → ps.length = args.length → (callableArgs ps args = true ↔ SubList args ps)
+  | [], [], _, _, _, _ => by simp [callableArgs, subList_nil_iff]
+  | [], _ :: _, _, _, _, hl => by simp at hl
+  | _ :: _, [], _, _, _, hl => by simp at hl
+  | p :: ps, a :: as, hd, hr, hw, hl => by
+    simp only [declarableList, wfList, Bool.and_eq_true] at hd hr hw
+    simp only [List.length_cons, Nat.add_right_cancel_iff] at hl
+    simp only [callableArgs, Bool.and_eq_true, subList_cons_iff]
+    rw [callableArgs_iff ar ps as hd.2 hr.2 hw.2 hl, ← bindIn_nil_iff ar p a hd.1 hr.1 hw.1]
+    cases h : bindIn p a with
+    | none => simp
+    | some b => cases b <;> simp
+
 end XrayModel
